@@ -1,5 +1,5 @@
 """property -> rules registry (claimed properties only)"""
-from . import rules_state, rules_arith
+from . import rules_state, rules_arith, rules_except, rules_guard
 
 RULES = {
     "P1": rules_state.rule_P1,
@@ -7,9 +7,27 @@ RULES = {
     "P2b": rules_state.rule_P2b,
     "N1": rules_arith.rule_N1,
     "N2": rules_arith.rule_N2,
+    "E1": rules_except.rule_E1,
+    "G1": rules_guard.rule_G1,
+    "G2": rules_guard.rule_G2,
 }
 
 PROPS = {
+    "C05": {
+        "id": "C05",
+        "title": "No call corrupts memory or hangs: misuse is reported by exception",
+        "rules": ["G1", "G2", "E1"],
+        "clause": "guard completeness (mechanisms 1-3 of the anchors): every plan solve() checks the input length with a live "
+                  "check before mixing it with plan tables; every foreign-bound subscript and caller-supplied index in a public "
+                  "function is dominated by a live relating guard; no noexcept function can reach a library throw",
+        "not_decided": "value-range safety of index arithmetic inside kernels (twiddle indices, polyphase offsets), termination "
+                       "and complexity (except the C15 clause)",
+        "explanation": "G1 enumerates every solve() of every plan class with delegation closure over the call graph (virtual calls "
+                       "fanned out to all overriders); G2 enumerates every unchecked subscript in every function with container "
+                       "parameters whose index bound comes from another container or from caller data; E1 runs whole-program "
+                       "reachability from every non-throwing function to every throw site. assert()/DSPLIB_ASSUME are beliefs "
+                       "(compiled out in release builds) and never count as guards.",
+    },
     "C09": {
         "id": "C09",
         "title": "Concurrent use from several threads is race-free and result-preserving",
